@@ -123,7 +123,7 @@ def run(c: Check):
                     seen.add(m)
                     todo.extend(identgen._export_succs(e["nodes"][m]))
                 return seen
-            if p["a"]["nodes"][t]["cls"] == "TaskSelf" and p["node"] in reach_all(p["exp_a"], t):
+            if p["a"]["nodes"][t]["cls"] in ("TaskSelf", "TaskSelfG") and p["node"] in reach_all(p["exp_a"], t):
                 p["kind"] = "upstream-task:task-marks-own-parameter"
         # guard: the edit may have been neutralised by the build (e.g. value coerced); only count real changes
         elif p["kind"] != "cycle-target" and p["exp_a"]["nodes"][p["node"]] == p["exp_b"]["nodes"][p["node"]] and p["which"] == "raw" \
